@@ -557,6 +557,11 @@ func sortedValue(p *Prog, v ssa.Value, cfg *OrderCfg, depth int) string {
 		}
 	}
 	if sorter != nil {
+		if k, ok := sorter.(*ssa.Call); ok {
+			if v := CheckComparator(k, func(elem types.Type, path string) bool { return uniqueProjection(nil, cfg, elem, path) }); !v.Total {
+				return "sorted at " + p.Rel(k.Pos()) + ", but " + v.Why
+			}
+		}
 		for _, o := range append(others, callsToInstrs(handoff)...) {
 			if !instrDominates(sorter, o) {
 				return "used at " + p.Rel(o.Pos()) + " before being sorted"
